@@ -146,6 +146,12 @@ public:
                                                                                \
       return tainted<T, T_Sbx>::internal_factory(reinterpret_cast<T>(target)); \
     } else {                                                                   \
+      /* number + raw pointer would produce a tainted pointer that holds an */ \
+      /* unchecked application address */                                      \
+      static_assert(!std::is_pointer_v<decltype(raw_rhs)>,                     \
+                    "Cannot add or subtract a raw pointer and a tainted "      \
+                    "number. Pointer arithmetic is only supported with the "   \
+                    "tainted pointer as the first operand");                   \
       auto raw = impl().get_raw_value();                                       \
       auto ret = raw opSymbol raw_rhs;                                         \
       using T_Ret = decltype(ret);                                             \
